@@ -42,31 +42,40 @@ func NewAdaptedClientPool(opts AdaptedClientPoolOpts) *AdaptedClientPool {
 // Instead of trying to synchronize such procedures, however, it's better to have a properly defined lifecycle
 // for each possible target, with clear logic about when it gets added or removed to/from all the components of a bridge.
 func (p *AdaptedClientPool) New(targetName, dialTarget string, opts ...grpc.DialOption) (*AdaptedClientPoolController, error) {
-	controllerAny, loaded := p.conns.LoadOrStore(targetName, new(AdaptedClientPoolController))
-	if loaded {
+	// The controller is fully initialized before being published, except for the client,
+	// which is stored atomically once it has been constructed: until then Get() reports the target as absent.
+	controller := &AdaptedClientPoolController{pool: p, target: targetName}
+
+	if _, loaded := p.conns.LoadOrStore(targetName, controller); loaded {
 		return nil, ErrAlreadyDialed
 	}
 
 	conn, err := p.opts.NewClientFunc(dialTarget, slices.Concat(p.opts.DefaultOpts, opts)...)
 	if err != nil {
+		// Release the reservation, otherwise the target could never be dialed again.
+		p.conns.CompareAndDelete(targetName, controller)
 		return nil, err
 	}
 
-	controller := controllerAny.(*AdaptedClientPoolController)
-	controller.pool = p
-	controller.target = targetName
-	controller.client = AdaptClient(conn)
+	controller.client.Store(AdaptClient(conn))
 
 	return controller, nil
 }
 
+// Get returns the pooled connection for the specified target, if one is present.
+// A target whose connection is still being constructed by New() is reported as absent.
 func (p *AdaptedClientPool) Get(target string) (ClientConn, bool) {
 	controller, ok := p.conns.Load(target)
 	if !ok {
 		return nil, false
 	}
 
-	return controller.(*AdaptedClientPoolController).client, true
+	client := controller.(*AdaptedClientPoolController).client.Load()
+	if client == nil {
+		return nil, false
+	}
+
+	return client, true
 }
 
 // AdaptedClientPoolController wraps an AdaptedClientConn created using a DialedPool,
@@ -75,7 +84,7 @@ type AdaptedClientPoolController struct {
 	pool *AdaptedClientPool
 
 	target string
-	client ClientConn
+	client atomic.Pointer[AdaptedClientConn]
 	closed atomic.Bool
 }
 
@@ -88,5 +97,5 @@ func (pw *AdaptedClientPoolController) Close() {
 	}
 
 	pw.pool.conns.Delete(pw.target)
-	pw.client.Close()
+	pw.client.Load().Close()
 }
